@@ -7,7 +7,7 @@ import os
 import shutil
 
 from props import c04, rsess
-from simkit import driver, gen, tree
+from simkit import driver, gen, rw, tree
 from simkit.prng import Rng
 from simkit.seams import REPO, Seams, SimClock, SimRandom, digest_of, import_py7zr
 
@@ -137,6 +137,7 @@ def run_case(case):
     tree.build_tree(os.path.join(work, "src"), case["tree"])
     log = []
     cls = {"kind": case["kind"]}
+    cls.update(case_class(case))
 
     def viol(oracle, site, detail, **extra):
         c = dict(cls)
@@ -344,12 +345,8 @@ def self_faults(py7zr, case, work, scratch, cli, viol, res):
             img = img[: r.randrange(len(img))]
         with open(arc, "wb") as f:
             f.write(img)
-        # consequence-based truth: does the reference reader recover the original members from this image?
-        try:
-            b = ref7z.read(img, password)
-            recoverable = not ref7z.enforced_issues(b) and not b.undecoded and [(m.name, m.data) for m in b.members] == pristine
-        except Exception:
-            recoverable = False
+        # consequence-based truth: can the original members still be read back from this image?
+        recoverable = _recoverable(py7zr, img, password, pristine, strict=True)
         intact = fault == "none"
     res["faults"][fault] = 1
     odir = os.path.join(scratch, "outf")
@@ -384,6 +381,35 @@ def self_faults(py7zr, case, work, scratch, cli, viol, res):
     res["probes"]["must_fail_cases"] = 1 if must_fail else 0
 
 
+def _recoverable(py7zr, img, password, pristine, strict, skip_ref=False):
+    """True when the original members (name, bytes) can be read back from ``img``: by the independent reference reader, or -
+    second opinion, because a one-shot decoder rejects a stream whose trailer is damaged although every member byte and its
+    CRC are intact - by the library itself delivering exactly the original bytes under the original names."""
+    if not skip_ref:
+        try:
+            b = ref7z.read(img, password)
+            if not b.undecoded and (not strict or not ref7z.enforced_issues(b)) and [(m.name, m.data) for m in b.members] == pristine:
+                return True
+        except Exception:
+            pass
+    try:
+        with py7zr.SevenZipFile(io.BytesIO(img), password=password) as z:
+            names = z.getnames()
+            fac = rw.make_factory()
+            z.extractall(factory=fac)
+            got = fac.result()
+        want = {n: d for n, d in pristine if d is not None}
+        return names == [n for n, _ in pristine] and got == want
+    except Exception:
+        return False
+
+
+def case_class(case):
+    if "ref" in case:
+        return gen.dep_flags([[{"id": f["id"]} for f in fo["chain"]] for fo in case["ref"]["layout"]["folders"]], None, None)
+    return {}
+
+
 def foreign(py7zr, case, work, scratch, cli, viol, res):
     from props import rsess
 
@@ -409,13 +435,11 @@ def foreign(py7zr, case, work, scratch, cli, viol, res):
     elif fault == "truncate":
         img = img[: r.randrange(len(img))]
     damaged = img != built.image
-    try:
-        # judged by consequence: the damage matters when the original members can no longer be read back (a flipped
-        # bit in stream padding that only a pack-stream CRC covers, which neither 7-Zip nor py7zr verify on 't', does not)
-        b = ref7z.read(img, pw)
-        recoverable = not b.undecoded and [(m.name, m.data) for m in b.members] == pristine
-    except Exception:
-        recoverable = False
+    # judged by consequence: the damage matters when the original members can no longer be read back (a flipped bit in
+    # stream padding that only a pack-stream CRC covers, which neither 7-Zip nor py7zr verify on 't', does not).  The
+    # reference reader is not asked to decode damaged PPMd data: pyppmd may crash on it (10.5), in the harness as well.
+    ppmd = any(f["id"] == "PPMD" for fo in case["ref"]["layout"]["folders"] for f in fo["chain"])
+    recoverable = _recoverable(py7zr, img, pw, pristine, strict=False, skip_ref=ppmd and damaged) if damaged else True
     arc = os.path.join(work, "f.7z")
     with open(arc, "wb") as f:
         f.write(img)
